@@ -63,6 +63,8 @@ def cases(tier, seed):
         out.append(dict(mode="convert", dts=dts_wide[k::8], start=starts[k % len(starts)]))
     # every ordered pair of period spellings (valid, grey, malformed; with colliding str()/hash/==) in one fresh interpreter: the verdict on a spelling must not depend on earlier calls
     out.append(dict(mode="history"))
+    # the library's own ISO writer: the text it produces for a duration below one day is an accepted spelling of that very duration
+    out.append(dict(mode="iso-roundtrip"))
     return out
 
 
@@ -412,8 +414,33 @@ def run_history(case):
     return util.result(evals=res["n"], nontrivial=res["n"], viol=uniq, outcomes=["ok"], states=res["n"], transitions=res["n"], sample=dict(mode="history", pairs=res["n"]))
 
 
+def run_iso(case):
+    from ladim.timekeeper import duration2iso, normalize_period
+
+    viols, n = [], 0
+    for S in list(range(0, 7300)) + [36000, 43200, 86399]:
+        reps = [("td64[s]", np.timedelta64(S, "s")), ("timedelta", datetime.timedelta(seconds=S))]
+        if S % 60 == 0:
+            reps.append(("td64[m]", np.timedelta64(S // 60, "m")))
+        if S % 3600 == 0:
+            reps.append(("td64[h]", np.timedelta64(S // 3600, "h")))
+        reps.append(("td64[ms]", np.timedelta64(S * 1000, "ms")))
+        for kind, d in reps:
+            n += 1
+            try:
+                iso = duration2iso(d)
+                back = int(normalize_period(iso) / np.timedelta64(1, "s")) if S > 0 else (0 if iso in ("PT0S", "PT0H0M0S", "P0D", "PT0M") or ref_parse(iso) == 0 else None)
+            except Exception as e:
+                iso, back = None, repr(e)
+            if back != S and len(viols) < 3:
+                viols.append(util.viol("period:iso-writer", f"duration2iso({d!r}) = {iso!r}, which normalize_period reads as {back} s; the duration is {S} s ({kind})", dict(mode="iso-roundtrip")))
+    return util.result(evals=n, nontrivial=n, viol=viols, outcomes=["ok"], states=n, transitions=n, sample=dict(mode="iso-roundtrip", durations="0..7299 s, 10 h, 12 h, 86399 s"))
+
+
 def run_case(case):
     m = case["mode"]
+    if m == "iso-roundtrip":
+        return run_iso(case)
     if m == "convert":
         return run_convert(case)
     if m == "history":
